@@ -39,7 +39,7 @@ proof fn lemma_sets_step(st: IPFixParser, b: Seq<u8>, done: Seq<FlowSet>)
 
 //@ fn lifted:ipfix_sets - /-/ vf_ipfix_sets__elem
 //@   result: r
-//@   closureopt 0: p | -> (o: (&'a [u8], FlowSet)) ensures o.0 == p.0, o.1 == p.1
+//@   prerules: R30
 //@   ensures: flowset_post(*old(parser), *final(parser), i, r)
 //@ end
 //@ fn lifted:ipfix_sets - /-/ vf_ipfix_sets__complete
@@ -58,7 +58,7 @@ proof fn lemma_sets_step(st: IPFixParser, b: Seq<u8>, done: Seq<FlowSet>)
 //@ fn lifted:ipfix_sets - /-/ vf_ipfix_sets
 //@   result: r
 //@   contract: stubs/ipfix_sets.rs
-//@   closure 0: p | -> (o: Vec<FlowSet>) ensures o == p.1
+//@   prerules: R30
 //@ end
 } // verus!
 fn main() {}
